@@ -58,6 +58,8 @@ type task struct {
 	spawn   int32 // site that spawned it
 	foreign bool  // not started through simrt.Go
 	wake    chan struct{}
+	spin    int64 // yield points passed since the last release
+	spunOut atomic.Int64 // how often it had to be stopped for never blocking
 	quantum int64 // owned by the task while it runs, by the controller while it is parked (accessed from norace code only)
 }
 
@@ -110,6 +112,7 @@ type Sim struct {
 	MaxSteps int
 	Panics   []string
 	Nondet   []string
+	Livelock string // set when a task was stopped 25 times in a row for passing 20000 yield points without blocking
 	sig      uint64
 	pairs    map[uint64]struct{}
 	lastSite int32
@@ -119,6 +122,9 @@ type Sim struct {
 	spawned  int
 	start    time.Time
 }
+
+// spinLimit bounds the yield points one release may pass through.
+const spinLimit = 20000
 
 // ErrStepBudget is reported through Sim.OverBudget.
 var DefaultQuanta = []int{-1, 0, 1, 2, 3, 5, 8, 13}
@@ -177,14 +183,22 @@ func (s *Sim) yield(site int32) {
 		t = s.registerForeign(gid, site)
 	}
 	if s.current.Load() == t {
-		if site&7 == KStmt && !s.StmtPreempt {
-			return
-		}
-		if t.quantum != 0 {
-			if t.quantum > 0 {
-				t.quantum--
+		// A task that keeps passing yield points without ever blocking (a busy
+		// loop) must come back to the controller eventually, whatever its
+		// quantum, so that the step budget can catch it.
+		t.spin++
+		if t.spin >= spinLimit {
+			t.spunOut.Add(1)
+		} else {
+			if site&7 == KStmt && !s.StmtPreempt {
+				return
 			}
-			return
+			if t.quantum != 0 {
+				if t.quantum > 0 {
+					t.quantum--
+				}
+				return
+			}
 		}
 	}
 	s.park(t, site)
@@ -285,6 +299,9 @@ func (s *Sim) Settle() {
 				case mPark:
 					s.parked[m.t.id] = m.t
 					s.parkSite[m.t.id] = m.site
+					if n := m.t.spunOut.Load(); n >= 25 && s.Livelock == "" {
+						s.Livelock = fmt.Sprintf("task %d (%s) passed %d x %d yield points without blocking, last at %s", m.t.id, m.t.name, n, spinLimit, SiteName(m.site))
+					}
 				case mExit:
 					delete(s.alive, m.t.id)
 					delete(s.parked, m.t.id)
@@ -393,6 +410,7 @@ func (s *Sim) release(id int, q int) {
 		s.Trace = append(s.Trace, fmt.Sprintf("%d:t%d@%s q=%d", s.Steps, id, SiteName(site), q))
 	}
 	t.quantum = int64(q)
+	t.spin = 0
 	s.current.Store(t)
 	t.wake <- struct{}{}
 }
@@ -430,8 +448,9 @@ func (s *Sim) RunUntil(cond func() bool, max int) bool {
 	return false
 }
 
-// OverBudget reports whether the run used up its scheduler-step budget.
-func (s *Sim) OverBudget() bool { return s.Steps >= s.MaxSteps }
+// OverBudget reports whether the run used up its scheduler-step budget, or a
+// task is spinning without ever blocking (Livelock says which).
+func (s *Sim) OverBudget() bool { return s.Steps >= s.MaxSteps || s.Livelock != "" }
 
 // Advance moves the fake clock forward by d (timers that expire wake their
 // goroutines, which then stop at their next yield point).
@@ -531,6 +550,9 @@ func (s *Sim) Counts() (int, int) { return s.spawned, s.exited }
 func (s *Sim) Drain(max int) {
 	for i := 0; i < max; i++ {
 		s.Settle()
+		if s.Livelock != "" {
+			return // a spinning task never finishes; leave it parked
+		}
 		ids := s.runnable()
 		if len(ids) == 0 {
 			return
